@@ -281,7 +281,8 @@ def run(ctx):
 
     # ---------------------------------------------------------------- R16.c
     for bname, (must, mustnot) in COMPOSITION.items():
-        f = ctx.norm.flat(raw[bname], depth=3)  # private grouping helpers inlined; the public blocks stay calls
+        # private grouping helpers inlined; the public blocks stay calls (also when a call passes them a new argument)
+        f = ctx.norm.flat(raw[bname], depth=3, keep=tuple(sorted(r_.qualname for k_, r_ in raw.items() if k_ != bname)))
         called = []
         _pos = source_pos(f.node)
         for n in own_nodes(f.node):
@@ -290,6 +291,19 @@ def run(ctx):
                 if q and q.split(".")[-1] in (ALL_BLOCKS | {"add_conjunctive_edges", "add_source_sink_edges"}):
                     called.append((_pos(n), q.split(".")[-1], n))
         called.sort()
+        # a call that passes a block an argument its pinned signature does not
+        # have is new API surface (`add_disjunctive_edges(graph, schedule)`:
+        # the oriented edges of a solved graph), not the block the composition
+        # table speaks of - unless the builder is required to call that block
+        from ..baseline_api import BASELINE_PARAMS
+
+        def pinned_call(nm, call):
+            bp = BASELINE_PARAMS.get(nm)
+            if bp is None or "*" in bp or "**" in bp:
+                return True
+            return len(call.args) <= len(bp) and all(k.arg is None or k.arg in bp for k in call.keywords)
+
+        called = [c for c in called if c[1] in must or pinned_call(c[1], c[2])]
         names = [c[1] for c in called]
         missing = must - set(names)
         extra = set(names) & mustnot
@@ -372,7 +386,15 @@ def run(ctx):
         if p.outcome == "raise":
             continue
         n += 1
-        w = [e for e in p.events if e.kind == "call" and e.data.get("attr") == "add_edge" and ast.unparse(e.data.get("recv")) == "self.graph"]
+        def _is_graph(r):
+            if ast.unparse(r) == "self.graph":
+                return True
+            if isinstance(r, ast.Name):  # `graph = self.graph` bound once
+                ds = ctx.flow.defs(ae).of(r.id)
+                return len(ds) == 1 and ds[0][0] == "value" and ast.unparse(ds[0][1]) == "self.graph"
+            return False
+
+        w = [e for e in p.events if e.kind == "call" and e.data.get("attr") == "add_edge" and e.data.get("recv") is not None and _is_graph(e.data.get("recv"))]
         if len(w) != 1:
             bad = True
             chk.violation(
